@@ -5,27 +5,34 @@ import (
 	"go/token"
 	"go/types"
 	"os"
+	"sort"
 
 	"sialint/internal/cfgx"
 )
 
 // pruneFlagEdges removes branch edges that are infeasible because of the value
-// of a *local boolean flag*: a bool variable declared in the function, never
-// address-taken, never written inside a function literal, whose writes are all
-// constants (`var b bool`, `b := false`, `b = true`). A forward dataflow keeps,
-// per flag, the set of values it may hold at each node; on the true/false edge
-// of a leaf condition that is the flag (or its negation) the set is narrowed,
-// and an edge with an empty set is deleted. This is what makes
-// `ok := false; …; ok = true; …; if !ok { cleanup }` and copies of deferred
-// conditional clean-ups (Expand with Defers) path-exact instead of merged.
-// Only provably infeasible edges are removed, so no rule can lose a real path.
-func (f *Func) pruneFlagEdges(g *cfgx.Graph) {
+// of a *local flag*: a variable declared in the function, never address-taken,
+// never written inside a function literal, that is either a bool or of a
+// nilable type (error and other interfaces, pointers, slices, maps, funcs).
+// A forward dataflow keeps, per flag, the set of values it may hold at each
+// node — {true,false} for a bool, {non-nil,nil} for a nilable — where a write
+// of a constant, of nil, or of a syntactically non-nil value (`&x`, `new`,
+// `make`, a function literal, fmt.Errorf, errors.New), or a copy of another
+// flag, is exact and every other write is "either". On the true/false edge of a
+// leaf condition that is the flag, its negation, or `flag ==/!= nil`, the set
+// is narrowed, and an edge with an empty set is deleted. This is what makes
+// `ok := false; …; ok = true; …; if !ok { cleanup }`, copies of deferred
+// conditional clean-ups (Expand with Defers), and `x, err = helper()` in two
+// arms of a branch followed by one joint `if err != nil` (after the helpers are
+// inlined) path-exact instead of merged. Only provably infeasible edges are
+// removed, so no rule can lose a real path.
+func (f *Func) pruneFlagEdges(g *cfgx.Graph) { f.pruneFlagEdgesN(g, 0) }
+
+func (f *Func) pruneFlagEdgesN(g *cfgx.Graph, depth int) {
 	if os.Getenv("SIALINT_NOFLAGS") != "" {
 		return
 	}
 	info := f.Info()
-	// candidate flags
-	type flag struct{ idx int }
 	flags := map[types.Object]int{}
 	bad := map[types.Object]bool{}
 	boolConst := func(e ast.Expr) (bool, bool) {
@@ -41,13 +48,21 @@ func (f *Func) pruneFlagEdges(g *cfgx.Graph) {
 		}
 		return false, false
 	}
-	isBoolVar := func(o types.Object) bool {
+	// kind of a tracked variable: 1 bool, 2 nilable, 0 not tracked
+	varKind := func(o types.Object) int {
 		v, ok := o.(*types.Var)
 		if !ok || v.IsField() {
-			return false
+			return 0
 		}
-		b, ok := v.Type().Underlying().(*types.Basic)
-		return ok && b.Kind() == types.Bool
+		switch t := v.Type().Underlying().(type) {
+		case *types.Basic:
+			if t.Kind() == types.Bool {
+				return 1
+			}
+		case *types.Interface, *types.Pointer, *types.Slice, *types.Map, *types.Signature, *types.Chan:
+			return 2
+		}
+		return 0
 	}
 	objOf := func(e ast.Expr) types.Object {
 		id, ok := ast.Unparen(e).(*ast.Ident)
@@ -59,7 +74,37 @@ func (f *Func) pruneFlagEdges(g *cfgx.Graph) {
 		}
 		return info.Defs[id]
 	}
+	isNil := func(e ast.Expr) bool {
+		id, ok := ast.Unparen(e).(*ast.Ident)
+		if !ok {
+			return false
+		}
+		_, ok = info.Uses[id].(*types.Nil)
+		return ok
+	}
+	// nilTest: `x != nil` / `x == nil` over an identifier
+	nilTest := func(e ast.Expr) (types.Object, bool, bool) {
+		be, ok := ast.Unparen(e).(*ast.BinaryExpr)
+		if !ok || (be.Op != token.NEQ && be.Op != token.EQL) {
+			return nil, false, false
+		}
+		var x ast.Expr
+		switch {
+		case isNil(be.Y):
+			x = be.X
+		case isNil(be.X):
+			x = be.Y
+		default:
+			return nil, false, false
+		}
+		o := objOf(x)
+		if o == nil {
+			return nil, false, false
+		}
+		return o, be.Op == token.NEQ, true
+	}
 	declared := map[types.Object]bool{}
+	tested := map[types.Object]bool{}
 	var scan func(n ast.Node, inLit bool)
 	scan = func(n ast.Node, inLit bool) {
 		ast.Inspect(n, func(m ast.Node) bool {
@@ -70,9 +115,9 @@ func (f *Func) pruneFlagEdges(g *cfgx.Graph) {
 					return false
 				}
 			case *ast.AssignStmt:
-				for i, l := range t.Lhs {
+				for _, l := range t.Lhs {
 					o := objOf(l)
-					if o == nil || !isBoolVar(o) {
+					if o == nil || varKind(o) == 0 {
 						continue
 					}
 					if id, ok := l.(*ast.Ident); ok && t.Tok == token.DEFINE && info.Defs[id] != nil && !inLit {
@@ -84,29 +129,14 @@ func (f *Func) pruneFlagEdges(g *cfgx.Graph) {
 						}
 						continue
 					}
-					if len(t.Rhs) != len(t.Lhs) || t.Tok == token.AND_ASSIGN || t.Tok == token.OR_ASSIGN {
-						bad[o] = true
-						continue
-					}
-					if _, isConst := boolConst(t.Rhs[i]); !isConst {
-						bad[o] = true
-					}
 				}
 			case *ast.ValueSpec:
-				for i, nm := range t.Names {
+				for _, nm := range t.Names {
 					o := info.Defs[nm]
-					if o == nil || !isBoolVar(o) || inLit {
+					if o == nil || varKind(o) == 0 || inLit {
 						continue
 					}
 					declared[o] = true
-					if len(t.Values) == 0 {
-						continue
-					}
-					if len(t.Values) != len(t.Names) {
-						bad[o] = true
-					} else if _, isConst := boolConst(t.Values[i]); !isConst {
-						bad[o] = true
-					}
 				}
 			case *ast.UnaryExpr:
 				if t.Op == token.AND {
@@ -122,58 +152,165 @@ func (f *Func) pruneFlagEdges(g *cfgx.Graph) {
 						}
 					}
 				}
+			case *ast.TypeSwitchStmt, *ast.SelectStmt:
+				// variables bound by these statements are not tracked
+				ast.Inspect(t, func(k ast.Node) bool {
+					if as, ok := k.(*ast.AssignStmt); ok && as.Tok == token.DEFINE {
+						if _, isTS := t.(*ast.TypeSwitchStmt); isTS && as == t.(*ast.TypeSwitchStmt).Assign {
+							for _, l := range as.Lhs {
+								if o := objOf(l); o != nil {
+									bad[o] = true
+								}
+							}
+						}
+					}
+					if cc, ok := k.(*ast.CommClause); ok {
+						if as, ok := cc.Comm.(*ast.AssignStmt); ok {
+							for _, l := range as.Lhs {
+								if o := objOf(l); o != nil {
+									bad[o] = true
+								}
+							}
+						}
+					}
+					return true
+				})
 			}
 			return true
 		})
 	}
 	scan(g.Body, false)
-	for o := range declared {
-		if !bad[o] {
-			flags[o] = len(flags)
+	// only variables that some leaf condition tests are worth tracking
+	for _, n := range g.Nodes {
+		for _, e := range n.Succs {
+			if e.Cond == nil {
+				continue
+			}
+			if o := objOf(e.Cond); o != nil && varKind(o) == 1 {
+				tested[o] = true
+			} else if o, _, ok := nilTest(e.Cond); ok && varKind(o) == 2 {
+				tested[o] = true
+			}
 		}
 	}
-	if len(flags) == 0 || len(flags) > 16 {
+	var cands []types.Object
+	for o := range declared {
+		if !bad[o] && tested[o] {
+			cands = append(cands, o)
+		}
+	}
+	sort.Slice(cands, func(i, j int) bool { return cands[i].Pos() < cands[j].Pos() })
+	if len(cands) > 128 {
+		cands = cands[:128]
+	}
+	for i, o := range cands {
+		flags[o] = i
+	}
+	if os.Getenv("SIALINT_DEBUGFLAGS") != "" {
+		println("flags", f.Name(), len(flags), len(declared), len(tested))
+		for o := range declared {
+			println("  declared", o.Name(), bad[o], tested[o])
+		}
+	}
+	if len(flags) == 0 {
 		return
 	}
-	// state: 2 bits per flag (1 = may be true, 2 = may be false); 0 = unreachable
-	type state uint64
-	const unknownAll = ^state(0)
-	get := func(s state, i int) state { return (s >> (2 * uint(i))) & 3 }
-	set := func(s state, i int, v state) state { return s&^(3<<(2*uint(i))) | v<<(2*uint(i)) }
+	// state: 2 bits per flag (1 = may be true / non-nil, 2 = may be false / nil)
+	type state [4]uint64
+	unknownAll := state{^uint64(0), ^uint64(0), ^uint64(0), ^uint64(0)}
+	get := func(s state, i int) uint64 { return (s[i/32] >> (2 * uint(i%32))) & 3 }
+	set := func(s state, i int, v uint64) state {
+		s[i/32] = s[i/32]&^(3<<(2*uint(i%32))) | v<<(2*uint(i%32))
+		return s
+	}
+	join := func(a, b state) state {
+		for i := range a {
+			a[i] |= b[i]
+		}
+		return a
+	}
 	in := map[*cfgx.Node]state{}
 	reached := map[*cfgx.Node]bool{}
 	// at entry nothing is declared yet; a flag reads as "unknown" until its declaration is seen
 	in[g.Entry] = unknownAll
 	reached[g.Entry] = true
+	// valueOf: what is known about the value of r (for a variable of kind k) in state s
+	valueOf := func(s state, r ast.Expr, k int) uint64 {
+		r = ast.Unparen(r)
+		if k == 1 {
+			if v, isConst := boolConst(r); isConst {
+				if v {
+					return 1
+				}
+				return 2
+			}
+		} else {
+			if isNil(r) {
+				return 2
+			}
+			switch x := r.(type) {
+			case *ast.UnaryExpr:
+				if x.Op == token.AND {
+					return 1
+				}
+			case *ast.FuncLit:
+				return 1
+			case *ast.CallExpr:
+				switch fn := ast.Unparen(x.Fun).(type) {
+				case *ast.Ident:
+					if b, ok := info.Uses[fn].(*types.Builtin); ok && (b.Name() == "new" || b.Name() == "make") {
+						return 1
+					}
+				case *ast.SelectorExpr:
+					if o, ok := info.Uses[fn.Sel].(*types.Func); ok && o.Pkg() != nil {
+						switch o.Pkg().Path() + "." + o.Name() {
+						case "fmt.Errorf", "errors.New":
+							return 1
+						}
+					}
+				}
+				// a repository constructor of errors (every return of it yields a non-nil error)
+				if tv, ok := info.Types[x]; ok && tv.Type != nil && IsErrorType(tv.Type) {
+					if callee := f.Callee(x); callee != nil && f.P.AlwaysErr(callee, 1) {
+						return 1
+					}
+				}
+			}
+		}
+		if o := objOf(r); o != nil {
+			if j, ok := flags[o]; ok {
+				return get(s, j)
+			}
+		}
+		return 3
+	}
 	transfer := func(n *cfgx.Node, s state) state {
 		if n.AST == nil {
 			return s
 		}
+		pre := s
 		apply := func(l ast.Expr, r ast.Expr, zero bool) {
 			o := objOf(l)
 			i, ok := flags[o]
 			if o == nil || !ok {
 				return
 			}
-			if zero {
+			switch {
+			case zero:
 				s = set(s, i, 2)
-				return
-			}
-			if v, isConst := boolConst(r); isConst {
-				if v {
-					s = set(s, i, 1)
-				} else {
-					s = set(s, i, 2)
-				}
-			} else {
+			case r == nil:
 				s = set(s, i, 3)
+			default:
+				s = set(s, i, valueOf(pre, r, varKind(o)))
 			}
 		}
 		switch t := n.AST.(type) {
 		case *ast.AssignStmt:
-			if len(t.Lhs) == len(t.Rhs) {
-				for i := range t.Lhs {
+			for i := range t.Lhs {
+				if len(t.Lhs) == len(t.Rhs) && (t.Tok == token.ASSIGN || t.Tok == token.DEFINE) {
 					apply(t.Lhs[i], t.Rhs[i], false)
+				} else {
+					apply(t.Lhs[i], nil, false)
 				}
 			}
 		case *ast.ValueSpec: // the graph holds one node per var spec
@@ -182,6 +319,8 @@ func (f *Func) pruneFlagEdges(g *cfgx.Graph) {
 					apply(nm, nil, true)
 				} else if len(t.Values) == len(t.Names) {
 					apply(nm, t.Values[i], false)
+				} else {
+					apply(nm, nil, false)
 				}
 			}
 		case *ast.DeclStmt:
@@ -193,11 +332,15 @@ func (f *Func) pruneFlagEdges(g *cfgx.Graph) {
 								apply(nm, nil, true)
 							} else if len(vs.Values) == len(vs.Names) {
 								apply(nm, vs.Values[i], false)
+							} else {
+								apply(nm, nil, false)
 							}
 						}
 					}
 				}
 			}
+		default:
+			// any other statement holding an assignment to a flag (if/for/switch init are separate nodes)
 		}
 		return s
 	}
@@ -206,12 +349,18 @@ func (f *Func) pruneFlagEdges(g *cfgx.Graph) {
 		if e.Cond == nil || (e.Kind != cfgx.True && e.Kind != cfgx.False) {
 			return 0, false, false
 		}
-		o := objOf(e.Cond)
-		i, ok := flags[o]
-		if o == nil || !ok {
+		if o := objOf(e.Cond); o != nil {
+			if i, ok := flags[o]; ok && varKind(o) == 1 {
+				return i, e.Kind == cfgx.True, true
+			}
 			return 0, false, false
 		}
-		return i, e.Kind == cfgx.True, true
+		if o, nonNilOnTrue, ok := nilTest(e.Cond); ok {
+			if i, ok := flags[o]; ok && varKind(o) == 2 {
+				return i, (e.Kind == cfgx.True) == nonNilOnTrue, true
+			}
+		}
+		return 0, false, false
 	}
 	refine := func(e *cfgx.Edge, s state) (state, bool) {
 		i, wantTrue, ok := condFlag(e)
@@ -242,7 +391,7 @@ func (f *Func) pruneFlagEdges(g *cfgx.Graph) {
 			old, was := in[e.To], reached[e.To]
 			merged := ns
 			if was {
-				merged = old | ns
+				merged = join(old, ns)
 			}
 			if !was || merged != old {
 				in[e.To] = merged
@@ -250,6 +399,79 @@ func (f *Func) pruneFlagEdges(g *cfgx.Graph) {
 				work = append(work, e.To)
 			}
 		}
+	}
+	// jump threading: an edge along which a flag's value is known, and which leads (through empty nodes only) to
+	// a condition testing that flag, goes straight to the side of the condition that value selects. This keeps
+	// `x, err = a()` / `x, err = b()` in two arms followed by one joint `if err != nil` path-exact.
+	isEmpty := func(n *cfgx.Node) bool {
+		if n.Exit || n == g.Entry || len(n.Succs) != 1 {
+			return false
+		}
+		if n.AST == nil {
+			return true
+		}
+		_, ok := n.AST.(*ast.EmptyStmt)
+		return ok
+	}
+	redirect := func(e *cfgx.Edge, to *cfgx.Node) {
+		var preds []*cfgx.Edge
+		for _, p := range e.To.Preds {
+			if p != e {
+				preds = append(preds, p)
+			}
+		}
+		e.To.Preds = preds
+		e.To = to
+		to.Preds = append(to.Preds, e)
+	}
+	threaded := false
+	for _, p := range g.Nodes {
+		if !reached[p] {
+			continue
+		}
+		out := transfer(p, in[p])
+		for _, e := range p.Succs {
+			st, feasible := refine(e, out)
+			if !feasible {
+				continue
+			}
+			for hops := 0; hops < 8; hops++ {
+				n := e.To
+				for k := 0; k < 8 && isEmpty(n); k++ {
+					n = n.Succs[0].To
+				}
+				if n == p || len(n.Succs) != 2 {
+					break
+				}
+				i, _, isTest := condFlag(n.Succs[0])
+				j, _, isTest2 := condFlag(n.Succs[1])
+				if !isTest || !isTest2 || i != j {
+					break
+				}
+				if v := get(st, i); v != 1 && v != 2 {
+					break
+				}
+				var tgt *cfgx.Edge
+				cnt := 0
+				for _, sc := range n.Succs {
+					if _, ok := refine(sc, st); ok {
+						tgt = sc
+						cnt++
+					}
+				}
+				if cnt != 1 {
+					break
+				}
+				redirect(e, tgt.To)
+				reached[tgt.To] = true
+				threaded = true
+			}
+		}
+	}
+	if threaded && depth < 4 {
+		// the states were computed for the old edges: start over on the threaded graph
+		f.pruneFlagEdgesN(g, depth+1)
+		return
 	}
 	// delete edges that are infeasible in the fixpoint
 	for _, n := range g.Nodes {
